@@ -353,6 +353,7 @@ Section Xform.
     match fuel with
     | O => []
     | S f =>
+      if negb (dsize =? 0) && (dsize <=? pos - doff) then [] else
       match read_uv (drop pos all) with
       | VOk slen _ n =>
         if slen =? 0 then [] else
@@ -364,7 +365,6 @@ Section Xform.
           else
             let npos := pos + n + slen in
             if negb (Transform.seek_ok o npos) then []
-            else if negb (dsize =? 0) && (dsize <=? npos - doff) then []
             else li_loop_allocs f o all npos doff dsize
         | _ => []
         end
